@@ -18,7 +18,8 @@ from props.service import sym_managers, proto, request, start_handler, status_co
 class ConsumerRace(Obligation):
     tier = 'T4'
 
-    def __init__(self, ctx, id_, consumers, events, n_out=1, n_back=1, stall_after=None, backlog_exact=None, first=()):
+    def __init__(self, ctx, id_, consumers, events, n_out=1, n_back=1, stall_after=None, backlog_exact=None, first=(), select_in_order=False):
+        self.select_in_order = select_in_order
         self.first = tuple(first)           # indices of consumers that run alone (until parked / stalled / done) before the race starts
         self.stall_after = stall_after      # a StreamingPull whose client stops reading after this many responses (HTTP/2 back-pressure)
         self.backlog_exact = backlog_exact
@@ -30,6 +31,8 @@ class ConsumerRace(Obligation):
                      'actor handling [%s] atomically' % (', '.join(consumers), ', '.join(events)))
         self.bounds = {'consumers': list(consumers), 'events': list(events), 'outstanding_before': '<= %d' % n_out, 'backlog_before': '<= %d' % n_back,
                        'granularity': 'Notify call / one-shot / mailbox send / actor step'}
+        if select_in_order:
+            self.bounds['select! start index'] = 0
         if first:
             self.desc += '; consumer(s) %s run alone first' % ', '.join(str(i) for i in first)
             self.bounds['run_alone_first'] = list(first)
@@ -45,6 +48,7 @@ class ConsumerRace(Obligation):
         install_tokens(ctx)
         p.timers_never_fire = True
         p.deleted_by_oneshot = True
+        p.select_in_order = self.select_in_order
         st = sym_actor(ctx, p, self.n_out, self.n_back, deleted=False)
         if self.backlog_exact is not None:
             p.assume(actor_fields(ctx, st.cell.v)['backlog'].n == self.backlog_exact)
@@ -325,7 +329,7 @@ class TopicNamespaceRace(Obligation):
                 else:
                     cur = [z3.If(same[k][j], z3.BoolVal(False), cur[j]) for j in range(n)]
             conj += [fin[j] == cur[j] for j in range(n)]
-            conj.append(nid2 == res['nid'] + created)
+            conj.append(nid2 >= res['nid'] + created)
             alts.append(z3.And(conj))
         out.append(Claim('results, final map and id counter equal those of some sequential order of the calls', z3.Or(alts)))
         # topics returned by successful creates / gets carry the requested name; two successful creates have distinct ids
@@ -441,7 +445,7 @@ class SubscriptionNamespaceRace(Obligation):
             conj += [fin[j] == cur[j] for j in range(n)]
             if self.has_counter:
                 nid2 = fld(ctx, st2, 'State', 'next_id', 'subscriptions/subscription_manager').t
-                conj.append(nid2 == res['nid'] + created)
+                conj.append(nid2 >= res['nid'] + created)
             alts.append(z3.And(conj))
         out.append(Claim('results, final map and id counter equal those of some sequential order of the calls', z3.Or(alts)))
         iids = []
